@@ -293,6 +293,37 @@ def probe(ctx):
             ctx.fail('repeat-call-differs', f'the same calls on the same objects gave different results ({bits(snap[0])},{bits(snap[1])})', rp)
         else:
             ctx.probe_ok(('alias', bits(snap[0]), bits(snap[1])))
+    # histories: a returned array must not alias internal state — corrupt the result of a call, repeat the call, compare with the first answer
+    for _ in range(40 if ctx.quick() else 400):
+        n = rng.randint(1, 6)
+        i1 = rng.randrange(4 ** n)
+        s1 = ''.join('IXYZ'[(i1 >> (2 * (n - 1 - j))) & 3] for j in range(n))
+        rp = dict(op='result-aliasing', n=n, index=i1, string=s1)
+        def once():
+            a = P.from_index(i1, n)
+            r = (bits(a.F2), bits(G.pauli_index_to_F2(i1, n, with_sign=True)), bits(G.pauli_index_to_F2(i1, n, with_sign=False)),
+                 bits(G.pauli_str_to_F2(s1)), bits(P.from_str(s1).F2), mat_to_chars(a.full_matrix), a.str_, sign_to_exp(a.sign))
+            # vandalise everything mutable that was handed out
+            for arr in (a.F2, G.pauli_index_to_F2(i1, n, with_sign=True), G.pauli_index_to_F2(i1, n, with_sign=False), G.pauli_str_to_F2(s1), a.full_matrix):
+                try:
+                    arr[...] = 1 - arr if arr.dtype == np.uint8 else arr * 0 + 7
+                except (ValueError, TypeError):
+                    pass
+            # (np_list hands out the module-level Pauli matrices themselves; they are not vandalised here)
+            return r
+        r1 = guarded(once); r2 = guarded(once)
+        if isinstance(r1, str) or isinstance(r2, str):
+            ctx.fail('result-aliasing', f'conversion raised during a call/modify/call history: {r1 if isinstance(r1, str) else r2} (index {i1}, n={n})', rp)
+        elif r1 != r2:
+            ctx.fail('result-aliasing', f'after modifying the arrays returned for index {i1} (n={n}, {s1}) the same calls return different values', rp)
+        else:
+            ctx.probe_ok(('ralias', n, i1))
+    # module-level constants must survive
+    for nm, ref in (('I', np.eye(2)), ('X', np.array([[0, 1], [1, 0]])), ('Y', np.array([[0, -1j], [1j, 0]])), ('Z', np.diag([1, -1]))):
+        if not np.array_equal(getattr(numqi.gate, nm), ref):
+            ctx.fail('module-constant-modified', f'numqi.gate.{nm} was modified by the calls above', dict(op='module-constant', name=nm))
+        else:
+            ctx.probe_ok(('const', nm))
     # random larger n: product/commutation against dense matrices
     for _ in range(40 if ctx.quick() else 400):
         n = rng.randint(3, 6)
